@@ -1,24 +1,4 @@
 // ===== spec/selection.rs : what calculate_selection appends to the expansion context (C03.2, C03.3, C01.1, C14.3, C12.3) =====
-// ---- well-formedness of the (query, schema) pair handed to code generation (established by query::resolve, unit `resolve`)
-pub open spec fn schema_wf(s: &Schema) -> bool {
-    &&& s.stored_objects@.len() <= 0xffff_ffff
-    &&& forall|f: int| 0 <= f < s.stored_fields@.len() ==> type_in_range(s, (#[trigger] s.stored_fields@[f]).r#type.id)
-    &&& forall|u: int, k: int| 0 <= u < s.stored_unions@.len() && 0 <= k < s.stored_unions@[u].variants@.len()
-            ==> type_in_range(s, #[trigger] s.stored_unions@[u].variants@[k])
-}
-pub open spec fn bound_wf(q: &Query, s: &Schema) -> bool {
-    &&& query_wf(q)
-    &&& schema_wf(s)
-    &&& forall|i: int| 0 <= i < q.selections@.len() ==> ((#[trigger] q.selections@[i]) matches Selection::Field(f) ==> f.field_id.0 < s.stored_fields@.len())
-    &&& forall|i: int| 0 <= i < q.selections@.len() ==> ((#[trigger] q.selections@[i]) matches Selection::InlineFragment(f) ==> type_in_range(s, f.type_id))
-    &&& forall|g: int| 0 <= g < q.fragments@.len() ==> type_in_range(s, (#[trigger] q.fragments@[g]).on)
-}
-// every id of the set is a child position of `parent` (ids grow towards the leaves: the measure of the recursion)
-pub open spec fn ids_ok(q: &Query, set: Seq<SelectionId>, parent: int) -> bool {
-    forall|k: int| 0 <= k < set.len() ==> parent < ((#[trigger] set[k]).0 as int) < q.selections@.len()
-}
-pub open spec fn is_prefix<A>(a: Seq<A>, b: Seq<A>) -> bool { a.len() <= b.len() && b.subrange(0, a.len() as int) =~= a }
-
 // ---- C03.2: the variants of an abstract type, in schema order
 pub open spec fn impl_upto(s: &Schema, iface: InterfaceId, n: int) -> Seq<TypeId> decreases n
 {
